@@ -60,5 +60,5 @@ Lemma table_has_the_access_operations :
   has_op Op_getattr = true /\ has_op Op_subscript = true /\ has_op Op_call = true /\ has_op Op_settings_read = true.
 Proof. vm_compute. repeat split. Qed.
 
-Lemma gated_payload_count : length (filter p_gated payloads) = 3%nat.
+Lemma gated_payload_count : Nat.leb 3 (length (filter p_gated payloads)) = true.
 Proof. vm_compute. reflexivity. Qed.
